@@ -109,7 +109,9 @@ def check_zero(eng, run):
             c = call_of(node)
             if isinstance(node, ast.Call) and _cname(c) == "set_write_buffer_limits":
                 args = list(c.args) + [k.value for k in c.keywords if k.arg == "high"]
-                ok = bool(args) and isinstance(args[0], ast.Constant) and args[0].value == 0 and dotted(c.func.value) in (tparam, f"{fn.self_name}.__transport")
+                from sa.norm import const_value
+                v0 = const_value(fn, args[0]) if args else ...
+                ok = bool(args) and v0 is not ... and not isinstance(v0, bool) and v0 == 0 and dotted(c.func.value) in (tparam, f"{fn.self_name}.__transport")
                 return [fact or ok]
             return [fact]
 
@@ -175,11 +177,8 @@ def check_wake(eng, run):
             return []
 
         def _is_waiters(self, e):
-            if isinstance(e, ast.Call) and e.args and (dotted(e.func) or "").split(".")[-1] in ("list", "tuple", "iter", "reversed"):
-                e = e.args[0]
-            if isinstance(e, ast.Name) and self.fn is not None:
-                e = through_local(self.fn, e)
-            return (dotted(e) or "").endswith(short)
+            e, _filtered = _iterated_collection(self.fn, e)
+            return e is not None and (dotted(e) or "").endswith(short)
 
         def transfer(self, node, fact):
             if isinstance(node, ForIter) and self._is_waiters(node.stmt.iter):
@@ -193,8 +192,13 @@ def check_wake(eng, run):
             return [fact | {"looped"}] if self._is_waiters(node.stmt.iter) else [fact]  # an empty collection: nobody to wake
 
         def branch(self, test, fact):
-            if self.method == "connection_lost" and isinstance(test, ast.Attribute) and "connection_lost" in test.attr and "looped" not in fact:
-                return [fact | {"bail"}], [fact]
+            # the object's own lost marker, as a flag (`if self.__connection_lost:`) or as an optional record (`... is not None`)
+            t, lost_when = test, True
+            if isinstance(t, ast.Compare) and len(t.ops) == 1 and isinstance(t.ops[0], (ast.Is, ast.IsNot)) and isinstance(t.comparators[0], ast.Constant) and t.comparators[0].value is None:
+                lost_when = isinstance(t.ops[0], ast.IsNot)
+                t = t.left
+            if self.method == "connection_lost" and isinstance(t, ast.Attribute) and "connection_lost" in t.attr and "errno" not in t.attr and "looped" not in fact:
+                return ([fact | {"bail"}], [fact]) if lost_when else ([fact], [fact | {"bail"}])
             return [fact], [fact]
 
     for name, completer in (("resume_writing", {"set_result"}), ("connection_lost", {"set_exception", "set_result"})):
@@ -269,6 +273,45 @@ def _ends_raise(stmts):
     if isinstance(last, ast.If):
         return _ends_raise(last.body) and (_ends_raise(last.orelse) if last.orelse else False)
     return False
+
+
+def _iterated_collection(fn, e, depth=0):
+    """(collection expression, filtered on `not <element>.done()`) behind a loop's iterable: through list()/tuple()/iter() wrappers,
+    single-assignment locals, a generator expression / list comprehension that hands each element on unchanged, and a private helper
+    whose only statement returns one of those (`for waiter in self.__pending_waiters():`)"""
+    from sa.analyses.buffers import through_local
+    filtered = False
+    for _ in range(6):
+        if isinstance(e, ast.Call) and e.args and (dotted(e.func) or "").split(".")[-1] in ("list", "tuple", "iter", "reversed"):
+            e = e.args[0]
+            continue
+        if isinstance(e, ast.Name) and fn is not None and not isinstance(fn.node, ast.Lambda):
+            e2 = through_local(fn, e)
+            if e2 is not e:
+                e = e2
+                continue
+        if isinstance(e, (ast.GeneratorExp, ast.ListComp)) and len(e.generators) == 1 and isinstance(e.generators[0].target, ast.Name) \
+                and isinstance(e.elt, ast.Name) and e.elt.id == e.generators[0].target.id:
+            g0 = e.generators[0]
+            for cond in g0.ifs:
+                ok_f = isinstance(cond, ast.UnaryOp) and isinstance(cond.op, ast.Not) and isinstance(cond.operand, ast.Call) and isinstance(cond.operand.func, ast.Attribute) \
+                    and cond.operand.func.attr == "done" and dotted(cond.operand.func.value) == g0.target.id
+                if not ok_f:
+                    return None, False  # some other filter: not the whole collection
+                filtered = True
+            e = g0.iter
+            continue
+        if isinstance(e, ast.Call) and fn is not None and not e.args and not e.keywords and depth < 2:
+            from sa.norm import helper_return_expr
+            try:
+                r = helper_return_expr(fn, e)
+            except Exception:  # noqa: BLE001
+                r = None
+            if r is not None:
+                c2, f2 = _iterated_collection(r[1], r[0], depth + 1)
+                return c2, (filtered or f2)
+        break
+    return e, filtered
 
 
 def _completes_all(body, var, completer) -> bool:
@@ -386,12 +429,16 @@ def _parents(root):
     return m
 
 
-def _guarded_by_done(pm, call, fut: str, stop) -> bool:
+def _guarded_by_done(pm, call, fut: str, stop, fn=None) -> bool:
     """`call` sits in the not-done branch of an `if` over `<fut>.done()` (lexically, inside `stop`), or after an early
-    `if <fut>.done(): return/continue` in the same block"""
+    `if <fut>.done(): return/continue` in the same block, or in a loop over elements filtered on `not <element>.done()`"""
     n = call
     while n in pm and n is not stop:
         p = pm[n]
+        if isinstance(p, ast.For) and isinstance(p.target, ast.Name) and p.target.id == fut and any(n is x for x in p.body) and fn is not None:
+            _c, filtered = _iterated_collection(fn, p.iter)
+            if filtered and not any(isinstance(a, (ast.Await, ast.Yield, ast.YieldFrom)) for b in p.body for a in ast.walk(b)):
+                return True
         if isinstance(p, ast.If):
             in_body = any(n is x for x in p.body)
             t, neg = p.test, False
@@ -418,6 +465,13 @@ def _guarded_by_done(pm, call, fut: str, stop) -> bool:
                         return True
         n = p
     return False
+
+
+def _hands_out_pending_only(g) -> bool:
+    """every value `g` returns is None or a future tested `not <it>.done()` on the way to that return"""
+    pm = _parents(g.node)
+    rets = [r for r in own_nodes(g.node) if isinstance(r, ast.Return) and r.value is not None and not (isinstance(r.value, ast.Constant) and r.value.value is None)]
+    return bool(rets) and all(isinstance(r.value, ast.Name) and _guarded_by_done(pm, r, r.value.id, g.node) for r in rets)
 
 
 def check_done(eng, run):
@@ -454,13 +508,23 @@ def check_done(eng, run):
             if fut is None:
                 continue
             n += 1
-            ok = _guarded_by_done(pm, c, fut, fn.node)
+            ok = _guarded_by_done(pm, c, fut, fn.node, fn if not isinstance(fn.node, ast.Lambda) else None)
             why = "done-guard"
             if not ok and not isinstance(fn.node, ast.Lambda):
                 # fresh future: assigned from create_future() / Future() in this function
                 fresh = any(isinstance(a, (ast.Assign, ast.AnnAssign)) and isinstance(getattr(a, "value", None), ast.Call) and (dotted(a.value.func) or "").split(".")[-1] in ("create_future", "Future")
                             and any(dotted(t) == fut for t in (a.targets if isinstance(a, ast.Assign) else [a.target])) and a.lineno < c.lineno for a in own_nodes(fn.node))
                 ok, why = fresh, "fresh-future"
+            if not ok and not isinstance(fn.node, ast.Lambda) and isinstance(c.func.value, ast.Name):
+                # the future comes from a getter of the repository that only ever hands out a waiter that is not done
+                # (`if (waiter := self._pending_read_waiter()) is not None: waiter.set_result(n)`), with nothing awaited in between
+                for b in own_nodes(fn.node):
+                    if isinstance(b, (ast.Assign, ast.AnnAssign, ast.NamedExpr)) and isinstance(getattr(b, "value", None), ast.Call) and b.lineno <= c.lineno and \
+                            any(isinstance(t, ast.Name) and t.id == fut for t in (b.targets if isinstance(b, ast.Assign) else [b.target])):
+                        for g in eng.typer.call_targets(fn, b.value, dispatch=False):
+                            if isinstance(g, FunctionInfo) and not isinstance(g.node, ast.Lambda) and not g.is_async and _hands_out_pending_only(g) \
+                                    and not any(isinstance(a, (ast.Await, ast.Yield, ast.YieldFrom)) and b.lineno <= a.lineno <= c.lineno for a in own_nodes(fn.node)):
+                                ok, why = True, f"pending-getter:{g.short}"
             if not ok and isinstance(fn.node, ast.Lambda):
                 # a completer lambda: fine when it is handed to a function that applies it under a done() guard
                 outer = fn.parent if hasattr(fn, "parent") else None
